@@ -603,6 +603,11 @@ pub fn show_op(op: &Op) -> String {
         Op::Parse { prog } => format!("parse_expression({:?})", prog.text()),
         Op::ParseExec { prog, ctx, times } => format!("parse_expression({:?}).exec({}) x{}", prog.text(), show_ctx(ctx), times),
         Op::ExecShared { ast, ctx } => format!("shared_ast[{}].exec({})", ast, show_ctx(ctx)),
+        Op::OnThreadExit { ops, late } => format!(
+            "on_new_thread_and_again_from_the_destructor_of_its_thread_local_first_touched_{}_the_body[{}]",
+            if *late { "after" } else { "before" },
+            ops.iter().map(show_op).collect::<Vec<_>>().join("; ")
+        ),
         Op::OnThread { ops } => format!("on_new_thread[{}]", ops.iter().map(show_op).collect::<Vec<_>>().join("; ")),
         Op::WithManager { regs, then } => format!(
             "with_one_manager_handle[set {:?}; then {}; drop]",
